@@ -330,6 +330,46 @@ func streamReg(o opts) {
 		}
 		kioshun.CloseAllGlobalCaches()
 	}
+	// a removal listener of a managed cache that calls back into the Manager while Remove / CloseAll close that cache
+	for rep := 0; rep < 4; rep++ {
+		mg := kioshun.NewManager()
+		ctx := fmt.Sprintf("registry listener re-entry %d", rep)
+		var calls atomic.Int64
+		lst := kioshun.WithOnRemove(func(k string, v int, r kioshun.RemovalReason) {
+			calls.Add(1)
+			kioshun.GetCacheWithConfig[string, int](mg, fmt.Sprintf("other-%d", calls.Load()%3), good)
+			mg.Register("late", good)
+			kioshun.GetCache[string, int](mg, "nobody")
+		})
+		if err := kioshun.RegisterCache[string, int](mg, "main", kioshun.Config{MaxSize: 4, ShardCount: 1, EvictionPolicy: kioshun.LRU}, lst); err != nil {
+			continue
+		}
+		c, err := kioshun.GetCache[string, int](mg, "main")
+		if err != nil {
+			continue
+		}
+		for i := 0; i < 64; i++ {
+			c.Set(fmt.Sprint(i), i, kioshun.NoExpiration) // evictions: notifications staged / in flight
+		}
+		done := make(chan struct{})
+		go func() {
+			if rep%2 == 0 {
+				mg.Remove("main")
+			} else {
+				mg.CloseAll()
+			}
+			close(done)
+		}()
+		select {
+		case <-done:
+		case <-time.After(5 * time.Second):
+			for _, p := range []string{"C07", "C17"} {
+				m.violate(p, fmt.Sprintf("%s: a managed cache's removal listener calls GetCacheWithConfig / Register / GetCache on the same Manager; %s did not return within 5 s (a Manager lock is held across the cache's Close, which waits for the listener)", ctx, map[bool]string{true: "Remove", false: "CloseAll"}[rep%2 == 0]), ctx)
+			}
+		}
+		go mg.CloseAll()
+		m.count("registry_listener_reentry")
+	}
 	// concurrent rounds
 	watch("registry warm-up")
 	unwatch()
